@@ -10,6 +10,7 @@ import (
 	"github.com/platinummonkey/go-concurrency-limits/limiter"
 	"github.com/platinummonkey/go-concurrency-limits/strategy"
 
+	"verif/vrt"
 	"verif/vrt/vctx"
 )
 
@@ -43,6 +44,7 @@ func (l *ScriptLimit) NotifyOnChange(c core.LimitChangeListener) {
 	l.subs = append(l.subs, c)
 }
 func (l *ScriptLimit) OnSample(start int64, rtt int64, inFlight int, drop bool) {
+	vrt.Yield() // the algorithm is foreign code to the limiter: it may be preempted (no-op without a scheduler)
 	l.Samples = append(l.Samples, SampleRec{start, rtt, inFlight, drop})
 	if l.Pos+1 < len(l.Traj) {
 		l.Pos++
